@@ -40,6 +40,8 @@ export function canon(v, ctx, depth = 0) {
 export function canonProps(props, ctx, depth = 0) {
   if (props === null || props === undefined) return null;
   if (typeof props !== 'object' || Array.isArray(props)) return { notobject: canon(props, ctx, depth + 1) };
+  // no props and an empty props object are the same thing to Vue
+  if (Object.keys(props).length === 0) return null;
   const out = {};
   for (const k of Object.keys(props).sort()) {
     const val = props[k];
